@@ -2,13 +2,13 @@
 EXTENDS Collectors
 Forever == 999999
 AC(s, e, f, fk, cp, inc) == [start |-> s, end |-> e, freq |-> f, fkind |-> fk, comp |-> cp, incl |-> inc]
-FC(s, e, f, wc, k) == [start |-> s, end |-> e, freq |-> f, wc |-> wc, k |-> k]
+FC(s, e, f, wc, plan) == [start |-> s, end |-> e, freq |-> f, wc |-> wc, plan |-> plan]
 AC_q == [c1 |-> AC(0, Forever, 1, "value", "nofunc", FALSE), c2 |-> AC(1, 3, 2, "odd_none", "total", FALSE),
          c3 |-> AC(0, Forever, 2, "none", "ret_none", TRUE)]
-FC_q == [f0 |-> FC(0, Forever, 1, 0, 1), f1 |-> FC(0, Forever, 1, 1, 2), f2 |-> FC(1, Forever, 2, 2, 0)]
+FC_q == [f0 |-> FC(0, Forever, 1, 0, <<1>>), f1 |-> FC(0, Forever, 1, 1, <<0, 0, 2, 1>>), f2 |-> FC(1, Forever, 2, 2, <<0, 1>>)]
 AC_t == AC_q @@ [c4 |-> AC(2, 2, 1, "const7", "empty", TRUE), c5 |-> AC(0, Forever, 3, "odd_none", "nofunc", TRUE)]
-FC_t == FC_q @@ [f3 |-> FC(0, 4, 1, 3, 1), f4 |-> FC(0, Forever, 1, 1, 0)]
+FC_t == FC_q @@ [f3 |-> FC(0, 4, 1, 3, <<1, 0>>), f4 |-> FC(0, Forever, 1, 1, <<0>>)]
 AC_mbt == [c1 |-> AC(0, Forever, 1, "odd_none", "total", FALSE), c2 |-> AC(1, 2, 1, "value", "nofunc", TRUE)]
-FC_mbt == [f1 |-> FC(0, Forever, 1, 1, 1)]
+FC_mbt == [f1 |-> FC(0, Forever, 1, 1, <<0, 1>>)]
 Ids_xy == {"x", "y"}
 =============================================================================
